@@ -6,6 +6,7 @@ Functions under contract (all obligations generated from the source in the tree 
     BSL._propagate_state [bounds | no-bounds]    proposal = back(Gaussian step around fwd(current))
     BSL._process_simulated [3 configurations]    accept iff u < min(1, ratio); rejected state restored field by field
     BSL._init_round [plain | misspec]            loop invariant: proposals with non-finite log-prior are rejected without simulating
+    BSL._init_state [params0 given | None, p = 1 | 2]   row 0 = start point and its log-prior; ValueError iff a given start is outside the support
   CAS tier (contracts/c20_cas.py, sympy, all real values at the listed concrete shapes):
     BSL._para_logit_transform / _para_logit_back_transform   back(fwd(x)) = x, fwd(back(y)) = y per bound type and for mixed vectors
     BSL._jacobian_logit_transform                            logJ = log|det d back/dy| of the EXTRACTED back-transform
@@ -13,7 +14,8 @@ Functions under contract (all obligations generated from the source in the tree 
     gaussian_syn_likelihood / syn_likelihood_misspec         arguments of the MVN log density (recording stub); warton / glasso calls
     gaussian_syn_likelihood_ghurye_olkin / wcon              Price et al. 2018 / Ghurye & Olkin 1969 (transcribed in c20_formulas.py)
     cov_warton                                               ridge formula, ValueError iff gamma outside [0, 1]
-  Bounded stand-in / replay vehicle: bounded/c20.py (native floats against scipy and the transcribed formulas)."""
+  Bounded stand-in / replay vehicle: bounded/c20.py (native floats against scipy and the transcribed formulas; real end-to-end
+  BSL.sample runs and one-object histories with every accept / reject decision re-derived from the recorded draws)."""
 MANIFEST = {
     'category': 'proof',
     'text': 'The Metropolis-Hastings step of BSL (_get_mh_ratio, _propagate_state, _process_simulated, _init_round) is verified deductively '
@@ -53,15 +55,21 @@ TRUSTED_BASE = [
 ASSUMPTIONS = [
     'A-REAL: floats are reals; float literals denote their decimal value; exp/log are the real functions (uninterpreted in the SMT tier)',
     'A-LOG: logging calls have no effect',
-    'values stored into scalar slots of the sampler state are scalars: likelihood and prior.logpdf are modelled as returning one real '
-    '(the shipped likelihoods return a shape-(1,) array and ModelPrior.logpdf a shape-(1,) array for a 2-D point, which numpy 2.5 refuses to '
-    'store into a scalar slot: F7 class, sampler level)',
+    'callee results have the callees\' real shapes: standard / unbiased likelihood np.array([x]) (C20 CAS contracts, sanity-tested), '
+    'misspec likelihood a scalar, ModelPrior.logpdf of the (1, d) proposal a shape-(1,) array (ModelPrior._evaluate_pdf, C08); storing an '
+    'array with ndim >= 1 into one array element is a ValueError as in numpy 2 (sanity-tested)',
+    'an attribute that BSL.__init__ of the tree sets to None and this module does not model is None or an arbitrary parameter vector '
+    '(object possibly used before); obligations refuted only under that over-approximation are violations only with a native one-object history',
     '-inf log-likelihood is the real constant -INF of the engine (no arithmetic law is used on it)',
     'Warton ridge: the code\'s documented division guard eps = 1e-5 on the diagonal is part of the specification',
     'ModelBased.set_objective(rounds) sets objective[round] = rounds and objective[n_batches] = rounds * batches-per-round (callee, not in the statement)',
     'the gamma sampler of the misspecification variants (slice_gamma_mean / slice_gamma_variance) is an opaque callee',
 ]
 NOT_PROVED = [
+    'the semi-parametric likelihood (semi_param_kernel_estimate, semiBSL) is outside the statement and not contracted; it also '
+    'crashes under the installed numpy (np.NINF at pdf_methods.py:235)',
+    'BSL._init_state (start of the chain) is under contract for the plain sampler only; the misspec start (gamma rows) is covered by the '
+    'bounded end-to-end runs',
     'after the optional whitening/shrinkage: for shrinkage="glasso" only the call of sklearn graphical_lasso (argument = sample covariance / '
     'correlation, alpha = penalty) and the use of its estimate are verified; graphical_lasso itself is assumed; it refuses a single summary (d = 1)',
     'for all simulated-summary matrices: CAS identities are proved at the listed (n, d) only; other shapes are covered by the bounded stand-in',
@@ -106,6 +114,23 @@ def sanity():
     ok = np.allclose(np.asarray(sx.mean(0), dtype=float), X.mean(0)) and np.allclose(np.asarray(np.matmul(sx, np.transpose(sx)), dtype=float), X @ X.T) \
         and tuple(int(k) for k in sx.shape) == (5, 2) and np.asarray(np.squeeze(c20_cas.sa([[1.0]]))).shape == ()
     out.append(('object arrays with sympy-Integer shapes: mean / matmul / transpose / squeeze as numpy', bool(ok)))
+    a = np.zeros(3)
+    try:
+        a[0] = np.array([1.0])
+        ok = False
+    except ValueError:
+        ok = True
+    a[1] = np.array(2.0)
+    a[2] = np.squeeze(np.array([3.0]))
+    out.append(('numpy: a[i] = <shape-(1,) array> raises ValueError, a 0-d array / np.squeeze of it is stored; bool(array([True])) is True',
+                bool(ok and a[1] == 2.0 and a[2] == 3.0 and bool(np.array([True])) and not bool(np.isfinite(np.array([-np.inf]))))))
+    from functools import partial
+    from pyvc import native
+    pm = native.import_module('elfi.methods.bsl.pdf_methods')
+    X, y = rs.randn(12, 2), rs.randn(1, 2) * 0.1
+    shp = (np.shape(pm.gaussian_syn_likelihood(X, y)), np.shape(pm.gaussian_syn_likelihood_ghurye_olkin(X, y)),
+           np.shape(pm.syn_likelihood_misspec(X, y, np.array([0.1, 0.1]), 'mean')))
+    out.append(('callee result shapes used by the sampler stubs: standard / unbiased likelihood (1,), misspec ()', shp == ((1,), (1,), ())))
     import sympy as sp
     x = sp.Symbol('x', real=True)
     got = c20_cas.run_paths(lambda: 1)          # no analysed frame: a relational outside analysed code must still raise
@@ -130,7 +155,7 @@ def bounded(tier, seed):
     return _bounded_cache[key]
 
 
-SMT_KIND = {'BSL._get_mh_ratio': 'mh_ratio', 'BSL._process_simulated': 'process', 'BSL._init_round': 'init_round', 'BSL._propagate_state': 'propagate'}
+SMT_KIND = {'BSL._init_state': 'sample', 'BSL._get_mh_ratio': 'mh_ratio', 'BSL._process_simulated': 'process', 'BSL._init_round': 'init_round', 'BSL._propagate_state': 'propagate'}
 
 
 def replay_refuted(cname, rf):
@@ -159,6 +184,9 @@ def replay_refuted(cname, rf):
     for name, inp, _ in b.gen_cases('thorough', 0):
         if inp['kind'] != kind or (which and inp.get('which') != which):
             continue
+        if cname.startswith('BSL._init_state') and ((inp['runs'][0].get('params0') is None) != ('params0=None' in cname)
+                                                    or inp.get('dim', 2) != (1 if 'p=1' in cname else 2)):
+            continue
         if case and case.get('types') is not None and inp.get('types') is not None and sorted(set(inp['types'])) != sorted(set(case['types'])):
             continue
         what = b.check(inp)
@@ -168,6 +196,16 @@ def replay_refuted(cname, rf):
             best = best or dict(found=True, input=inp, observed=what)
     if best and want_exc is None:
         return best
+    if not case:
+        # sampler functions: real end-to-end BSL.sample runs, incl. one-object histories (several sample() calls): the only
+        # vehicle that can reach state left by earlier calls (refutations under an over-approximation taint, vc.taint)
+        for name, inp, _ in b.gen_cases('thorough', 0):
+            if inp['kind'] != 'sample':
+                continue
+            what = b.check(inp)
+            if what and (want_exc is None or want_exc in what):
+                return dict(found=True, input=inp, observed=what)
+        tried.append('end-to-end BSL.sample runs and histories hold')
     return dict(found=False, searched='bounded cases of kind %s (thorough, seed 0)' % kind, tried=tried)
 
 
